@@ -217,3 +217,14 @@ package syncx
 //@   property C07
 //@   requires manager != nil
 //@   loop 0: invariant true
+
+// C07 LockedCalls: the caller's own function runs exactly once; on every exit - return or panic - the key is removed
+// before the waiters are released, and they ARE released (Done on both exits), so nobody waits for a finished call
+//@ func (lg *lockedGroup) makeCall
+//@   property C07
+//@   flag callbacks_noheap nolock
+//@   results val, err
+//@   requires lg.m != nil && fn != nil
+//@   call Done#0: assert !inDom(lg.m, key)
+//@   ensures  calls(fn) == old(calls(fn)) + 1 && val == ret(fn, 0) && err == ret(fn, 1) && !inDom(lg.m, key) && wg(wg) == 0
+//@   ensures_panic calls(fn) == old(calls(fn)) + 1 && !inDom(lg.m, key) && wg(wg) == 0
